@@ -14,5 +14,8 @@ def run(pid, tier, replay):
     if pid == "C09":
         from . import p_lex
         return p_lex.main(pid, tier, replay)
+    if pid == "C18":
+        from . import p_ct
+        return p_ct.main(pid, tier, replay)
     print("unknown or unclaimed property %s" % pid)
     return 2
